@@ -42,6 +42,11 @@ func parse(str string, l ZitiQlListener, el antlr.ErrorListener, debug bool) {
 	input := antlr.NewInputStream(str)
 	lexer.SetInputStream(input)
 
+	// characters the lexer does not recognise must reach the caller as errors as well, by default the lexer
+	// only prints them to the console and drops them from the input
+	lexer.RemoveErrorListeners()
+	lexer.AddErrorListener(el)
+
 	p := parserPool.Get().(*ZitiQlParser)
 	defer parserPool.Put(p)
 
@@ -94,17 +99,23 @@ type ErrorListener struct {
 	Errors []ParseError
 }
 
-func (el *ErrorListener) SyntaxError(_ antlr.Recognizer, offendingSymbol interface{}, line, column int, _ string, _ antlr.RecognitionException) {
+func (el *ErrorListener) SyntaxError(_ antlr.Recognizer, offendingSymbol interface{}, line, column int, msg string, _ antlr.RecognitionException) {
 	s, ok := offendingSymbol.(*antlr.CommonToken)
-	symbol := "<unknown>"
-	if ok {
-		symbol = s.GetText()
+	if !ok || s == nil {
+		// errors reported by the lexer have no offending token, only a message
+		el.Errors = append(el.Errors, ParseError{
+			Line:    line,
+			Column:  column,
+			Symbol:  "<unknown>",
+			Message: fmt.Sprintf(`%s at line: %d column: %d`, msg, line, column),
+		})
+		return
 	}
 
 	el.Errors = append(el.Errors, ParseError{
 		Line:    line,
 		Column:  column,
-		Symbol:  symbol,
+		Symbol:  s.GetText(),
 		Message: fmt.Sprintf(`Unexpected symbol: "%s" at line: %d column: %d`, s.GetText(), line, column),
 	})
 }
